@@ -1,5 +1,6 @@
 import Driver.ValidLib
 import Driver.C05Nest
+import Driver.C05Pair
 /-! Driver executable for C05 (`drv_c05`): stream `valid-grid` compares GEOS observations with the reference rules;
 stream `ref` prints the reference verdicts of a bare geometry line. -/
 
@@ -8,6 +9,7 @@ def main (args : List String) : IO UInt32 := do
   | ["valid-grid"] => Driver.loop (← IO.getStdin) (← IO.getStdout) Driver.C05.check; return 0
   | ["node-topo"] => Driver.loop (← IO.getStdin) (← IO.getStdout) Driver.C05.nodeTopo; return 0
   | ["ring-nested"] => Driver.loop (← IO.getStdin) (← IO.getStdout) Driver.C05.ringNested; return 0
+  | ["pair-rule"] => Driver.loop (← IO.getStdin) (← IO.getStdout) Driver.C05.pairRuleLine; return 0
   | ["ring-nested-dbg"] => Driver.loop (← IO.getStdin) (← IO.getStdout) Driver.C05.ringNestedDbg; return 0
   | ["ref"] => Driver.loop (← IO.getStdin) (← IO.getStdout) Driver.C05.refOnly; return 0
-  | _ => IO.eprintln "usage: drv_c05 valid-grid|node-topo|ring-nested|ref"; return 2
+  | _ => IO.eprintln "usage: drv_c05 valid-grid|node-topo|ring-nested|pair-rule|ref"; return 2
